@@ -3,7 +3,7 @@ import json, os, copy, base64, binascii, collections
 import vlib
 from vlib import Infra, log
 
-RULE = ("S->C: TLC enumerates the decision table of TonConnect_Gen (3 key sources x 17 wallet contracts x 35 single tamperings x 5 times) "
+RULE = ("S->C: TLC enumerates the decision table of TonConnect_Gen (3 key sources x 17 wallet contracts x 36 single tamperings x 5 times) "
         "into abstract cases with the verdict TonConnect!Decide requires; the harness concretises each (keys from seeds, state-inits "
         "from the wallet package, CreateSignedProof, mock executor) and runs the real Server.CheckProof under recover(); required: "
         "verdict (ok, key, error) equal to the table's, no panic. C->S: every concrete proof (table cases, random single-field "
@@ -14,7 +14,7 @@ RULE = ("S->C: TLC enumerates the decision table of TonConnect_Gen (3 key source
 
 STD = ["v1r1", "v1r2", "v1r3", "v2r1", "v2r2", "v3r1", "v3r2", "v4r1", "v4r2", "v5beta", "v5r1"]
 TCLASS = {"none": "valid", "si_no_code": "no_code_or_data", "si_no_data": "no_code_or_data", "si_no_code_no_data": "no_code_or_data",
-          "si_other": "state_init_of_other_key", "si_unknown_code": "unknown_code", "si_short_data": "short_data",
+          "si_other": "state_init_of_other_key", "si_attacker": "state_init_and_signature_of_other_key", "si_unknown_code": "unknown_code", "si_short_data": "short_data",
           "si_multi_root": "multi_root_boc", "si_garbage": "garbage_boc", "si_truncated": "truncated_boc", "si_bad_b64": "bad_base64",
           "si_empty": "no_state_init"}
 NSHARD = max(2, min(14, vlib.NCPU - 2))
@@ -38,8 +38,8 @@ def key_of(e, want):
     if t == "none" and cs.get("time", "fresh") != "fresh":
         cls = cs["time"]
     ver = cs.get("ver", "?")
-    if ver not in STD and cls != "no_code_or_data" and not t.startswith(("si_", "addr_", "payload_", "sig_bad")):
-        cls = ver if t in ("none", "forged_zero_key") else ver + "+" + cls
+    if ver not in STD and t in ("none", "forged_zero_key"):      # the only rows whose verdict depends on the kind of contract
+        cls = ver
     if g["panic"]:
         # the state-init parser handed back neither a key nor an error
         sym = "nil_key" if (ps["panic"] == "" and ps["ok"] and ps["key"] == "") else "panic"
@@ -97,7 +97,7 @@ def gen_vectors(ck):
     cfg = "gen/TonConnect_Gen_full.cfg" if ck.thorough else "gen/TonConnect_Gen_quick.cfg"
     res = ck.tlc_or_infra("TonConnect_Gen", cfg, workers=4, name="gen", timeout=600)
     rows = res.vecs()
-    rows.sort(key=lambda v: (v["src"], v["ver"], v["tamper"], v["time"]))
+    rows.sort(key=lambda v: (v["ver"] not in STD, v["ver"] != "v4r2", v["ver"], v["src"], v["tamper"], v["time"]))
     reps = 3 if ck.thorough else 1
     vecs = []
     for rep in range(reps):
@@ -107,7 +107,7 @@ def gen_vectors(ck):
             vecs.append(w)
     # vacuity: the table must contain every key source, contract, tampering, and all three verdict classes
     dims = {d: {v[d] for v in rows} for d in ("src", "ver", "tamper", "time")}
-    if len(dims["src"]) != 3 or len(dims["ver"]) != 17 or len(dims["tamper"]) < 35 or len(dims["time"]) != 5:
+    if len(dims["src"]) != 3 or len(dims["ver"]) != 17 or len(dims["tamper"]) < 36 or len(dims["time"]) != 5:
         raise Infra("decision table incomplete: %s" % {k: len(x) for k, x in dims.items()})
     if {v["want"]["v"] for v in rows} != {"accept", "reject", "free"}:
         raise Infra("decision table lacks a verdict class")
@@ -229,9 +229,11 @@ def run(ck):
     kinds = collections.Counter()
     verd = collections.Counter()
     distinct = set()
-    inconsistent = []
+    inconsistent, sig_only, layout_broken = [], [], []
+    bad_ids = set()
     for (sp, part), (notes, rejected) in zip(jobs, results):
         bad = {rj["line"] for rj in rejected}
+        bad_ids |= {id(part[i - 1]) for i in bad}
         for i, e in enumerate(part, 1):
             kinds[e["k"]] += 1
             n = notes.get(i)
@@ -245,14 +247,25 @@ def run(ck):
                 row = vecs[e["vec"]]
                 fa, fb = row["f"], n["f"]
                 diff = {k: (fa[k], fb[k]) for k in FACT_FIELDS if fa[k] != fb[k]}
+                # the code cell the wallet package puts into a state-init of version V must be the published contract V
+                if fb["siCode"] and row["tamper"] not in ("address", "si_unknown_code") and fb["siVersion"] != row["ver"]:
+                    ck.report("C19:wallet_code:%s:not_the_published_contract" % row["ver"], "the state-init the wallet package builds for %s carries a code "
+                              "cell whose hash is that of %s in the list of published wallet contracts" % (row["ver"], fb["siVersion"]),
+                              {"kind": "event", "direction": "C->S", "event": e})
+                    continue
                 wa = e["want"]
                 same = n["v"] == wa["v"] and n["key"] == wa["key"] and not diff and n["owner"]
                 if not same:
-                    sigdiff = set(diff) <= {"sigChain", "sigSi"} and diff
-                    if row["tamper"] == "none" and sigdiff and e["go"]["ok"]:
+                    # a signature the table expects to be valid (made by CreateSignedProof) that is not valid over the message
+                    # TON Connect prescribes: if the code itself accepts such a proof, signer and verifier share a wrong layout
+                    sigonly = diff and set(diff) <= {"sigChain", "sigSi"} and all(a and not b for a, b in diff.values())
+                    if sigonly and row["tamper"] == "none" and e["go"]["ok"]:
+                        layout_broken.append(e)
                         ck.report("C19:message_layout:honest_signature_invalid_under_spec_message",
                                   "a proof made by CreateSignedProof and accepted by CheckProof does not verify (EdVerify) over the message "
                                   "TON Connect prescribes: both sides share a wrong layout", {"kind": "event", "direction": "C->S", "event": e})
+                    elif sigonly:
+                        sig_only.append((e["case"], wa, {"v": n["v"], "key": n["key"]}, diff, n["owner"]))
                     else:
                         inconsistent.append((e["case"], wa, {"v": n["v"], "key": n["key"]}, diff, n["owner"]))
                     continue
@@ -269,6 +282,8 @@ def run(ck):
                     ck.report("C19:%s:%s:%s" % ("CheckPayload" if e["k"] == "Payload" else "GeneratePayload", e.get("class", "age=%d,life=%d" % (int(e["now"]) - int(e.get("issued", e["now"])), e["lp"])), sym),
                               "%s event: the specification requires %s, the code gave ok=%s err=%s panic=%s" % (e["k"], n["v"], g["ok"], g["err"] or "-", g["panic"] or "-"),
                               {"kind": "event", "direction": "C->S", "event": e})
+    if not layout_broken:
+        inconsistent += sig_only
     if inconsistent:
         raise Infra("%d concrete cases do not realise their decision-table row (harness or table defect), first: %s" % (len(inconsistent), json.dumps(inconsistent[0])[:1500]))
     ck.extra["events_by_kind"] = dict(kinds)
@@ -277,7 +292,7 @@ def run(ck):
     if kinds["Payload"] < 30 or kinds["Issued"] < 12 or kinds["Check"] < len(evs) + 100:
         raise Infra("driver recorded too little: %s" % dict(kinds))
     for need in (("Check", "accept"), ("Check", "reject"), ("Check", "free"), ("Payload", "accept"), ("Payload", "reject"), ("Issued", "accept"), ("Issued", "reject")):
-        if not verd[need]:
+        if not verd[need] and not layout_broken:
             raise Infra("no %s event with derived verdict %s: vacuous" % need)
     dsample = next((e for _, de, _, _ in drives for e in de if e["k"] == "Check" and e["case"]["tamper"] != "none"), None)
     if dsample:
@@ -309,8 +324,10 @@ def run(ck):
     st = (ck.states, ck.transitions, ck.traces_ok, ck.evaluations)
     _, crej = judge_file(ck, cp, "canary")
     ck.states, ck.transitions, ck.traces_ok, ck.evaluations = st
+    got = [r["line"] for r in crej]
+    expect_orig = [11] * (id(base) in bad_ids) + [12] * (id(pev) in bad_ids)      # the originals keep the verdict they had in the run
     ck.canary("C->S: broken signature / other key / altered state-init / expired / other domain / broken MAC / reject logged as accept / panic / "
-              "payload verdict flipped / other secret are rejected, the originals accepted", [r["line"] for r in crej] == list(range(1, 11)))
+              "payload verdict flipped / other secret are rejected, the originals judged as before", got == list(range(1, 11)) + expect_orig)
     return ck.finish(rule=RULE, distinct=len(rows) + len(distinct))
 
 
